@@ -6,7 +6,7 @@ import os
 from vlib import core, runner
 from .base import Check
 
-EVENT_OPS = ("B ", "K ", "U ", "T ", "X ", "N ", "D ", "F ", "R ", "E ")
+EVENT_OPS = ("B ", "S ", "K ", "U ", "T ", "X ", "N ", "D ", "F ", "R ", "E ")
 
 # Harmless rewrites of the anchored code on which the full flow of this check was run and stays silent (built as mutated object
 # files in scratch and linked into a scratch harness; the patches are kept as documentation in corpus/C10/negative_controls/).
@@ -25,6 +25,10 @@ NEGATIVE_CONTROLS = [
     "nc8 notification.cpp ExecuteNotificationHelper: OnNotificationSentToUser emitted before the command runs (the harness waits for both)",
     "nc9 apilistener.cpp OnConfigLoaded: the ApiListener object itself becomes HARunEverywhere (infrastructure objects are not observed)",
     "nc10 checkercomponent.cpp ExecuteCheckHelper: erase-by-key with its return value instead of find + erase(iterator)",
+    "nc11 endpoint.cpp/.hpp: GetConnected() reads a lock-free std::atomic<bool> mirror that AddClient/RemoveClient keep equal to "
+    "!m_Clients.empty() (the correct version of seeded change C10-7)",
+    "nc12 notification.ti: stashed_notifications loses the `state` flag (which internal bookkeeping survives a restart is an oracle input)",
+    "nc13 configobject.ti: pause_called / resume_called get the `state` flag (restoring a flag is not a Pause()/Resume() call)",
 ]
 # Compared between model and implementation: paused, #Pause(), #Resume(), #command executions per observed object, Utility::SDBM.
 # Deliberately NOT compared: number of OnPausedChanged notifications, length of the notification stash, log text, timer periods
@@ -40,10 +44,13 @@ class C10(Check):
                          "cold_start_no_change", "no_zone_all_active", "pause_resume_once_per_change",
                          "authority_order_irrelevant", "never_undefined", "model_trace_meets_spec",
                          "overlapping_runs_are_one", "paused_node_is_silent", "cold_start_notification_waits",
-                         "exactly_one_does_the_work"]
+                         "exactly_one_does_the_work", "connected_while_a_connection_is_left",
+                         "closing_one_of_several_changes_nothing", "half_is_endpoint_set", "restart_has_no_authority",
+                         "unseen_members_do_not_matter", "one_round_settles", "alone_after_grace_is_active"]
     technique = ("Lean 4 proof (order/sort normal form, decision logic stated outright, invariant by induction over events of the "
-                 "two-member system) over a hand-written model of Utility::SDBM, ApiListener::UpdateObjectAuthority and "
-                 "ConfigObject::SetAuthority; correspondence by differential execution of two real in-process ApiListener nodes "
+                 "two-member system) over a hand-written model of Utility::SDBM, ApiListener::UpdateObjectAuthority, "
+                 "ConfigObject::SetAuthority, the client set of Endpoint (AddClient/RemoveClient/GetConnected) and the restart of a "
+                 "process with or without its state file; correspondence by differential execution of two real in-process ApiListener nodes "
                  "(one process per node identity) whose outputs are joined per scenario")
     level_text = ("Machine-checked theorems (Lean 4 kernel): for every pair of distinct endpoint names (arbitrary bytes), every object name, "
                   "every iteration order of the zone's members and arbitrary clocks, two members that see each other both decide and exactly "
@@ -52,9 +59,19 @@ class C10(Check):
                   "cold-start run touches nothing; Pause/Resume calls equal the authority changes over any decision sequence (two overlapping "
                   "runs count as one); an object paused on a node gets no notification sent and no check executed there (request path, "
                   "notification timer incl. the cold-start stash, scheduler's idle set) and settled members do each piece of work exactly once; "
-                  "and for every layout, object and finite sequence of (re)start / connect / disconnect / authority-run / notification-request / "
+                  "from ANY state of two members that hold a connection to each other one authority run on each (either order) leaves "
+                  "an active run-once object unpaused on exactly one of them and later runs keep it there (about the objects, not the verdicts); "
+                  "a zone with further members that are not connected decides like the two-member zone; "
+                  "an endpoint is connected exactly while one of its connections is left, over any sequence of attach/remove events with "
+                  "arbitrary connection numbers, and closing one of several connections changes no later decision; a restarted process — "
+                  "with new objects only or through the state file written while it was active — has no authority for a run-once object "
+                  "until an authority run decides; "
+                  "and for every layout, object and finite sequence of (re)start (plain / through the state file) / connection attach / "
+                  "connection remove / authority-run / notification-request / "
                   "notification-timer / due-check events on both members the model's trace satisfies the executable specification. The model is tied to the code by running two real ApiListener nodes "
-                  "(real Endpoint/Zone/JsonRpcConnection objects, real UpdateObjectAuthority directly and through the authority timer "
+                  "(real Endpoint/Zone objects with several real JsonRpcConnection objects per endpoint attached and removed through "
+                  "Endpoint::AddClient/RemoveClient, restarts through the real ConfigObject::DumpObjects/RestoreObjects of a state file "
+                  "written while the objects were active, real UpdateObjectAuthority directly and through the authority timer "
                   "registered by ApiListener::Start, real SetAuthority/Pause/Resume on Host, Service, Notification, Downtime, Comment, "
                   "CheckerComponent, NotificationComponent objects; a real started NotificationComponent and "
                   "CheckerComponent per node with recording notification/check commands; two real threads blocked on an object's lock for "
@@ -64,7 +81,8 @@ class C10(Check):
     level_note = ("Trusted: Lean kernel (+ propext, Classical.choice, Quot.sound), sampled correspondence (seeded scenarios + corpus), harness/driver. "
                   "Not modelled: notification filters/reminders and check scheduling arithmetic (C03/C04; the harness uses forced custom notifications and "
                   "explicitly due checks); TLS/connection establishment (a connection is an attached JsonRpcConnection object); thread interleavings "
-                  "other than two authority runs blocked on one object's lock.")
+                  "other than two authority runs blocked on one object's lock. Oracle input: which Notification objects get their stash of "
+                  "undelivered notifications back from the state file (an object whose name is not valid UTF-8 does not: the file is JSON).")
     trusted_base = [
         "modelled, not verified: only Utility::SDBM, the endpoint selection / cold-start test / index computation of "
         "ApiListener::UpdateObjectAuthority and ConfigObject::SetAuthority; std::sort is modelled by insertion sort on distinct names "
@@ -73,6 +91,8 @@ class C10(Check):
         "notificationcomponent.cpp:138-206, checkercomponent.cpp:291-317); in a process without ApiListener the notification timer does not honour "
         "`paused` (notificationcomponent.cpp:159 tests the local endpoint): modelled as such, the spec clause applies to nodes with an endpoint",
         "each node process joins the ApiListener's relay/sync work queues before every observation; timers run only through Timer::VerifFireDue",
+        "a restart is a rebuild of all objects of the case inside the node's process (the ApiListener singleton, the node's started "
+        "components, commands and user live on); the crash is modelled by dumping the state file before the old objects are taken down",
     ]
     assumptions = [
         "`char` is signed and `unsigned long` is 64 bit on the platform (checked on every run: Utility::SDBM is compared on names with bytes >= 0x80 and on long names that wrap)",
@@ -229,7 +249,7 @@ class C10(Check):
 
     def replay(self, path, harness, driver):
         data = json.load(open(path))
-        lines = [l for l in data.get("case", []) if l[:2] in ("C ", "O ", "H ", "B ", "K ", "U ", "T ", "X ", "N ", "D ", "F ", "R ", "E ")]
+        lines = [l for l in data.get("case", []) if l[:2] in ("C ", "O ", "H ", "B ", "S ", "K ", "U ", "T ", "X ", "N ", "D ", "F ", "R ", "E ")]
         f = self.work("replay.ops")
         with open(f, "w") as fh:
             fh.write("\n".join(runner.strip_obs(l) for l in lines) + "\n")
